@@ -26,7 +26,7 @@ REQUIRED_MONITORS = ["C01.frequency_moment==trapz", "C01.hm0", "C01.tm01", "C01.
 REQUIRED_REACH = ["spectrum.py:WaveSpectrum.frequency_moment", "spectrum.py:WaveSpectrum._range",
                   "spectrum.py:FrequencyDirectionSpectrum.e"]
 TIMEOUT = {"quick": 600, "thorough": 2400}
-N = {"quick": (8, 60), "thorough": (16, 1500)}  # shards, cases per shard
+N = {"quick": (8, 60), "thorough": (16, 400)}  # shards, cases per shard
 
 
 def plan(tier, seed):
